@@ -50,6 +50,7 @@ struct Aligner
 {
   const std::string& stream;
   std::vector<VisEv>& ev;
+  bool structured = false; // stream[i] == i % 251
   Aligner(const std::string& s, std::vector<VisEv>& e) : stream(s), ev(e) {}
   // Order the deliveries (earliest end first; among deliveries that overlap in time prefer the one that continues the stream),
   // then align the concatenation with the peer's stream byte by byte, counting forward jumps (gaps).
@@ -73,6 +74,7 @@ struct Aligner
         if (first < 0) first = (int)i;
         const std::string& b = ev[i].bytes;
         size_t k = std::min<size_t>(b.size(), 8);
+        if (k == 0) { pick = (int)i; break; }
         if (pos + k <= stream.size() && stream.compare(pos, k, b, 0, k) == 0) { pick = (int)i; break; }
       }
       if (pick < 0) pick = first;
@@ -89,8 +91,8 @@ struct Aligner
         seen += run;
         if (off == b.size()) break;
         // mismatch: do the next bytes (up to 8, completed from the following deliveries if this one is short) occur further on?
-        std::string probe = b.substr(off, 8);
-        for (size_t j : order) { if (probe.size() >= 8) break; if (!used[j]) probe += ev[j].bytes.substr(0, 8 - probe.size()); }
+        std::string probe = b.substr(off, structured ? 1 : 8);
+        if (!structured) for (size_t j : order) { if (probe.size() >= 8) break; if (!used[j]) probe += ev[j].bytes.substr(0, 8 - probe.size()); }
         size_t at = probe.empty() ? std::string::npos : stream.find(probe, pos);
         char buf[300];
         if (at == std::string::npos)
@@ -146,6 +148,9 @@ extern "C" void harness_run()
   size_t total = 1 + sim::draw(th ? 40000 : 9000);
   if (nc.mss <= 7 || tc.ioReadChunk <= 16 || nc.rcvbuf <= 16) total = 1 + total % (th ? 3000 : 1200);
   w.peer_stream = hx::keyed_bytes(0xC03, total);
+  // with Disabled, bytes may legitimately be missing: use a stream in which a single byte identifies its offset modulo 251, so
+  // that every delivery - even a 1-byte one - can be located and the minimal-gap alignment is unambiguous
+  if (useDisabled) for (size_t i = 0; i < total; i++) w.peer_stream[i] = (char)(i % 251);
   int peerEnd = (int)sim::draw(4); // 0 FIN after writing, 1 RST after writing + delay, 2 hold (iora closes), 3 FIN, then linger
   bool iora_server = sim::draw(2) == 0;
   std::vector<uint32_t> pchunk(16), ppause(16);
@@ -413,6 +418,7 @@ extern "C" void harness_run()
   int gaps = 0;
   std::string why;
   Aligner al(w.peer_stream, w.vis);
+  al.structured = useDisabled;
   int maxGaps = useDisabled ? disabledWindows : (overflowRun ? 0 : 0);
   bool aligned = al.run(pos, gaps, maxGaps, why);
   size_t visBytes = 0;
